@@ -253,10 +253,14 @@ func (s Sentinel) MarshalStream(w data.Writer) error {
 	if err := s.Filter.MarshalStream(w); err != nil {
 		return err
 	}
-	if err := w.WriteUint16(uint16(len(s.paths))); err != nil {
+	n := len(s.paths)
+	if n > 0xFFFF {
+		n = 0xFFFF
+	}
+	if err := w.WriteUint16(uint16(n)); err != nil {
 		return err
 	}
-	for i := 0; i < len(s.paths) && i < 0xFFFF; i++ {
+	for i := 0; i < n; i++ {
 		if err := s.paths[i].MarshalStream(w); err != nil {
 			return err
 		}
